@@ -659,6 +659,8 @@ class KnownDirectivesChecker(ValidationVisitor):
 
     enter_operation_definition = _enter_ancestor
     leave_operation_definition = _leave_ancestor
+    enter_variable_definition = _enter_ancestor
+    leave_variable_definition = _leave_ancestor
     enter_field = _enter_ancestor
     leave_field = _leave_ancestor
     enter_field = _enter_ancestor
@@ -723,6 +725,7 @@ class KnownDirectivesChecker(ValidationVisitor):
             )
 
         return {
+            _ast.VariableDefinition: "VARIABLE_DEFINITION",
             _ast.Field: "FIELD",
             _ast.FragmentSpread: "FRAGMENT_SPREAD",
             _ast.InlineFragment: "INLINE_FRAGMENT",
